@@ -912,3 +912,90 @@ func parseInt(s string) (int64, error) {
 	_, err := fmt.Sscanf(s, "%d", &v)
 	return v, err
 }
+
+// C09 ONLYCLOSENOW: the forwarder held by a cachedDnsForwarder is closed only
+// inside closeNow (its once-guard, reached through retire/endUse/beginUse).  A
+// direct Close of entry.forwarder bypasses the retired flag and the in-flight
+// count: a query that already holds the entry keeps using a closed forwarder.
+func c09OnlyCloseNow(c *Ctx) {
+	const rule = "LIFECYCLE"
+	n := 0
+	for _, f := range c.P.FuncsIn("control") {
+		if f.Decl == nil {
+			continue
+		}
+		info := f.Info()
+		tainted := map[types.Object]string{}
+		isFwdField := func(e ast.Expr) bool { return core.FieldOf(info, e) == "cachedDnsForwarder.forwarder" }
+		for changed := true; changed; {
+			changed = false
+			mark := func(id *ast.Ident, why string) {
+				if o := info.ObjectOf(id); o != nil {
+					if _, ok := tainted[o]; !ok {
+						tainted[o] = why
+						changed = true
+					}
+				}
+			}
+			fromTainted := func(e ast.Expr) (string, bool) {
+				why, hit := "", false
+				ast.Inspect(e, func(m ast.Node) bool {
+					switch x := m.(type) {
+					case *ast.SelectorExpr:
+						if isFwdField(x) {
+							why, hit = core.ExprStr(x), true
+						}
+					case *ast.Ident:
+						if w, ok := tainted[info.ObjectOf(x)]; ok {
+							why, hit = w, true
+						}
+					}
+					return true
+				})
+				return why, hit
+			}
+			ast.Inspect(f.Body, func(m ast.Node) bool {
+				switch x := m.(type) {
+				case *ast.AssignStmt:
+					if len(x.Lhs) == len(x.Rhs) {
+						for i, l := range x.Lhs {
+							if id, ok := l.(*ast.Ident); ok {
+								if w, hit := fromTainted(x.Rhs[i]); hit {
+									mark(id, w)
+								}
+							}
+						}
+					}
+				case *ast.RangeStmt:
+					if id, ok := x.Value.(*ast.Ident); ok && x.Value != nil {
+						if w, hit := fromTainted(x.X); hit {
+							mark(id, w)
+						}
+					}
+				}
+				return true
+			})
+		}
+		core.EachCall(f.Body, core.Deep, func(call *ast.CallExpr) {
+			recv, name, ok := methodCall(call)
+			if !ok || name != "Close" {
+				return
+			}
+			why := ""
+			if isFwdField(recv) {
+				why = core.ExprStr(recv)
+			} else if id, isId := ast.Unparen(recv).(*ast.Ident); isId {
+				why = tainted[info.ObjectOf(id)]
+			}
+			if why == "" {
+				return
+			}
+			n++
+			c.R.Saw(f)
+			inCloseNow := strings.HasSuffix(f.Name, "cachedDnsForwarder.closeNow")
+			c.R.Checkf(rule, "entry-forwarder-closed-only-in-closeNow@"+strings.TrimPrefix(f.Name, "control."), c.pos(call.Pos()), inCloseNow,
+				"%s closes %s (the forwarder of a cached entry): outside closeNow's once-guard this bypasses the retired flag and the in-flight count, so a query that already holds the entry begins use of a closed forwarder and the forwarder is closed before its last in-flight query", strings.TrimPrefix(f.Name, "control."), why)
+		})
+	}
+	c.R.Floor(rule+"/entry-forwarder-close-sites", n, 1)
+}
